@@ -33,7 +33,7 @@ def _root_chain(e: ast.AST) -> Tuple[Optional[str], List[str]]:
     return None, []
 
 
-def _aliases(f) -> Dict[str, Tuple[str, List]]:
+def _aliases(f, readers=None) -> Dict[str, Tuple[str, List]]:
     """name -> (root variable, key path) for names denoting (parts of) a raw trace dict read in f"""
     al: Dict[str, Tuple[str, List]] = {}
     changed = True
@@ -46,7 +46,7 @@ def _aliases(f) -> Dict[str, Tuple[str, List]]:
             elif isinstance(n, ast.AnnAssign) and n.value is not None:
                 tgt, val = n.target, n.value
             if isinstance(tgt, ast.Name) and val is not None and tgt.id not in al:
-                if isinstance(val, ast.Call) and call_name(val).split(".")[-1] in READERS:
+                if isinstance(val, ast.Call) and call_name(val).split(".")[-1] in (readers or READERS):
                     al[tgt.id] = (tgt.id, [])
                     changed = True
                 else:
@@ -152,6 +152,14 @@ def run(db, chk) -> None:
     chk.ob("C20.R1-fresh-read", "get_raw_trace_for_one_rank parses the file anew on every call and keeps no reference (writers mutate what it returns)", fresh, tm.loc(g),
            found={"returns": [ast.unparse(r.value)[:80] for r in rets], "stores_on_self": sorted(stores)}, accepted="return parse_trace_dict(trace_filepath)",
            why="a cached dict carries the critical markers / flow events / counters of an earlier output into every later file")
+    # the readers hand out what the JSON decoder returned: no event is removed, replaced or re-ordered between json.load(s) and the return
+    for mod_, q_ in ((tf, "read_trace"), (tp, "parse_trace_dict")):
+        rf = H.inline_helpers(mod_, mod_.func(q_))
+        al_ = _aliases(rf, readers=("loads", "load"))
+        chk.ob("C20.R1-fresh-read", f"{mod_.name}:{q_}: the decoded JSON object is tracked", True if al_ else None, mod_.loc(rf), found=sorted(al_), accepted="a variable bound to json.loads / json.load")
+        for s_ in _mutation_sites(mod_, rf, al_):
+            chk.ob("C20.R1-fresh-read", f"{mod_.name}:{q_}: the reader returns the decoded file unmodified (mutation at path {s_['path']})", False, mod_.loc(s_["node"]), found=s_["src"], accepted="no store into the decoded object",
+                   why="a reader that drops or rewrites records (e.g. empty {} events) makes every rewrite of the file (update_trace_rank, counters, overlay) lose them")
     pdict = tp.func("parse_trace_dict")
     chk.ob("C20.R1-fresh-read", "parse_trace_dict builds its result from json.loads of the file contents (no module-level cache)", "json.loads" in ast.unparse(pdict) and not [n for n in ast.walk(pdict) if isinstance(n, ast.Global)],
            tp.loc(pdict), found="json.loads" in ast.unparse(pdict), accepted="json.loads(fh.read())")
